@@ -168,6 +168,11 @@ func (rt *runtime) cmplEvaluateNodeBinaryExpression(node *nodeBinaryExpression) 
 		}
 		panic(rt.panicTypeError("invalid kind %s for %s (expected object)", rightValue.kind, operator, at(node.idx)))
 	}
+	if node.operator == token.INSTANCEOF {
+		// 11.8.6, with the position of the expression for the TypeErrors of
+		// a right operand that has no [[HasInstance]] or no prototype object.
+		return boolValue(rightValue.object().hasInstance(leftValue, at(node.idx)))
+	}
 	return rt.calculateBinaryExpression(node.operator, leftValue, rightValue)
 }
 
